@@ -126,6 +126,25 @@ func cmdCheck(args []string) {
 		return nil
 	})
 
+	// Badger model for native replay: write the stub files to the work dir and map them
+	if model, err := os.ReadFile(filepath.Join(harnessDir, "_badgermodel", "badger.go")); err == nil {
+		stub := filepath.Join(work, "badger_stub.go")
+		os.WriteFile(stub, []byte("package badger\n"), 0o644)
+		_ = model
+		first := true
+		files, _ := filepath.Glob(filepath.Join(badgerModDir, "*.go"))
+		for _, f := range files {
+			if strings.HasSuffix(f, "_test.go") {
+				continue
+			}
+			if first {
+				ovFiles[f] = filepath.Join(harnessDir, "_badgermodel", "badger.go")
+				first = false
+			} else {
+				ovFiles[f] = stub
+			}
+		}
+	}
 	if *replayPath != "" {
 		os.Exit(replayOnly(*prop, *replayPath, ovFiles, work))
 	}
